@@ -207,6 +207,10 @@ func runC12(h *H) {
 		cur = nil
 		gcSettle()
 		gcSettle()
+		// finalizers run asynchronously: give them up to 5 s before calling it a leak
+		for dl := time.Now().Add(5 * time.Second); swapMapLines()-baseMaps > 0 && time.Now().Before(dl); {
+			gcSettle()
+		}
 		leakedMaps := swapMapLines() - baseMaps
 		h.emit(h.line("C12", "hist").CSM(m0).Int(done).Str(w.String()).Str("end").Int(leakedMaps).Int(tmpFiles(tmp)))
 	}
